@@ -51,36 +51,62 @@ func (a *app) Append(_ storage.SeriesRef, ls labels.Labels, st, t int64, v float
 func (a *app) Commit() error   { return nil }
 func (a *app) Rollback() error { return nil }
 
+// zs / zus print Z literals; large magnitudes in hexadecimal, because Coq 8.16 spends tens of
+// milliseconds interpreting each 19-digit decimal literal.
+func zs(v int64) string {
+	if v > -1_000_000 && v < 1_000_000 {
+		return gallina.Z(v)
+	}
+	if v < 0 {
+		return "(-0x" + strconv.FormatUint(uint64(-v), 16) + ")%Z" // -MinInt64 wraps to 1<<63 as uint64: correct magnitude
+	}
+	return "0x" + strconv.FormatUint(uint64(v), 16) + "%Z"
+}
+func zus(v uint64) string {
+	if v < 1_000_000 {
+		return gallina.ZU(v)
+	}
+	return "0x" + strconv.FormatUint(v, 16) + "%Z"
+}
+func fb(f float64) string { return zus(math.Float64bits(f)) }
+func listZ(vs []int64) string {
+	it := make([]string, len(vs))
+	for i, v := range vs {
+		it[i] = zs(v)
+	}
+	return gallina.List(it)
+}
+
 // ---------- Gallina printers ----------
 
 func zu(vs []uint64) string {
 	it := make([]string, len(vs))
 	for i, v := range vs {
-		it[i] = gallina.ZU(v)
+		it[i] = zus(v)
 	}
 	return gallina.List(it)
 }
 func fbits(vs []float64) string {
 	it := make([]string, len(vs))
 	for i, v := range vs {
-		it[i] = gallina.FloatBits(v)
+		it[i] = fb(v)
 	}
 	return gallina.List(it)
 }
 func spans(ss []histogram.Span) string {
 	it := make([]string, len(ss))
 	for i, s := range ss {
-		it[i] = fmt.Sprintf("mkSpan %s %s", gallina.Z(int64(s.Offset)), gallina.Z(int64(s.Length)))
+		it[i] = fmt.Sprintf("mkSpan %s %s", zs(int64(s.Offset)), zs(int64(s.Length)))
 	}
 	return gallina.List(it)
 }
 func layout(ss []histogram.Span, ds []int64) string {
-	return "(" + spans(ss) + ", " + gallina.ListZ(ds) + ")"
+	return "(" + spans(ss) + ", " + listZ(ds) + ")"
 }
 func histTerm(h *histogram.Histogram) string {
-	return fmt.Sprintf("(mkH %s %s %s %s %s %s %s %s %s %s)", gallina.Z(int64(h.CounterResetHint)), gallina.Z(int64(h.Schema)),
-		gallina.ZU(h.ZeroCount), spans(h.PositiveSpans), gallina.ListZ(h.PositiveBuckets), spans(h.NegativeSpans), gallina.ListZ(h.NegativeBuckets),
-		gallina.FloatBits(h.Sum), gallina.ZU(h.Count), fbits(h.CustomValues))
+	return fmt.Sprintf("(mkH %s %s %s %s %s %s %s %s %s %s)", zs(int64(h.CounterResetHint)), zs(int64(h.Schema)),
+		zus(h.ZeroCount), spans(h.PositiveSpans), listZ(h.PositiveBuckets), spans(h.NegativeSpans), listZ(h.NegativeBuckets),
+		fb(h.Sum), zus(h.Count), fbits(h.CustomValues))
 }
 
 // ---------- input-determined trigger of the known defect ----------
@@ -205,7 +231,7 @@ type metricDesc struct {
 func main() {
 	f := gallina.ParseFlags()
 	meta := gallina.NewMeta("C43", f.Seed, f.Tier)
-	meta.Rule = "stream L: corpus + exhaustive enumeration of bucket-count arrays over {0,1,2} (quick: length<=4, thorough: <=6) x offsets -2..1 (thorough -4..3) x scaleDown 0..2 (thorough 0..3) through the real convertBucketsLayout, plus seeded random arrays with zero runs, negative / extreme offsets, scaleDown 0..6,31,40 and both adjustOffset values; stream M: seeded random OTLP metrics (gauge, sum, histogram classic/NHCB, exponential histogram; 1-3 data points; all temporalities; flags; scales -6..MaxInt32) through the real FromMetrics. Non-trivial = L: the array is non-empty and (scaleDown>=1 or it contains a zero); M: at least one sample was appended. Distinct by printed input."
+	meta.Rule = "stream L: corpus + exhaustive enumeration of bucket-count arrays over {0,1,2} (quick: length<=4, thorough: <=5) x offsets -2..1 (thorough -4..3) x scaleDown 0..2 (thorough 0..3) through the real convertBucketsLayout, plus seeded random arrays with zero runs, negative / extreme offsets, scaleDown 0..6,31,40 and both adjustOffset values; stream M: seeded random OTLP metrics (gauge, sum, histogram classic/NHCB, exponential histogram; 1-3 data points; all temporalities; flags; scales -6..MaxInt32) through the real FromMetrics. Non-trivial = L: the array is non-empty and (scaleDown>=1 or it contains a zero); M: at least one sample was appended. Distinct by printed input."
 	cf := &gallina.CaseFile{Dir: f.Out, Type: "case", PerShard: 2500,
 		Preamble: "From Coq Require Import List ZArith.\nFrom Verif Require Import lib.Int64 model.Otlp corr.CorrC43.\nImport ListNotations.\nOpen Scope Z_scope.\n",
 		Footer:   gallina.StdFooter}
@@ -248,7 +274,7 @@ func main() {
 			shape = defectShape
 			meta.Hit("L-defect-trigger")
 		}
-		cf.Add(fmt.Sprintf("CLayout %s %s %s %s %s %s", gallina.Z(int64(id)), zu(counts), gallina.Z(int64(off)), gallina.Z(int64(sd)), gallina.Bool(adjust), layout(ss, ds)))
+		cf.Add(fmt.Sprintf("CLayout %s %s %s %s %s %s", zs(int64(id)), zu(counts), zs(int64(off)), zs(int64(sd)), gallina.Bool(adjust), layout(ss, ds)))
 		meta.Case(id, layoutDesc{Kind: "layout", Counts: counts, Off: off, SD: sd, Adjust: adjust, Obs: fmt.Sprint(ss, ds), Shape: shape, Corpus: corpus})
 		meta.Evaluations++
 		id++
@@ -309,15 +335,15 @@ func main() {
 				switch p.kind {
 				case 0:
 					dp.SetIntValue(p.iv)
-					v = "(IntV " + gallina.Z(p.iv) + ")"
+					v = "(IntV " + zs(p.iv) + ")"
 				case 1:
 					dp.SetDoubleValue(p.dv)
-					v = "(DblV " + gallina.FloatBits(p.dv) + ")"
+					v = "(DblV " + fb(p.dv) + ")"
 				}
 				dp.SetFlags(flags(p.norec))
 				dp.SetTimestamp(pcommon.Timestamp(p.ts))
 				dp.SetStartTimestamp(pcommon.Timestamp(p.st))
-				it = append(it, fmt.Sprintf("mkNum %s %s %s %s", v, gallina.Bool(p.norec), gallina.ZU(p.ts), gallina.ZU(p.st)))
+				it = append(it, fmt.Sprintf("mkNum %s %s %s %s", v, gallina.Bool(p.norec), zus(p.ts), zus(p.st)))
 			}
 			return gallina.List(it)
 		}
@@ -345,8 +371,8 @@ func main() {
 				dp.SetFlags(flags(p.norec))
 				dp.SetTimestamp(pcommon.Timestamp(p.ts))
 				dp.SetStartTimestamp(pcommon.Timestamp(p.st))
-				it = append(it, fmt.Sprintf("mkHist %s %s %s %s %s %s %s %s", fbits(p.bounds), zu(p.counts), gallina.ZU(p.count),
-					gallina.Bool(p.hasSum), gallina.FloatBits(p.sum), gallina.Bool(p.norec), gallina.ZU(p.ts), gallina.ZU(p.st)))
+				it = append(it, fmt.Sprintf("mkHist %s %s %s %s %s %s %s %s", fbits(p.bounds), zu(p.counts), zus(p.count),
+					gallina.Bool(p.hasSum), fb(p.sum), gallina.Bool(p.norec), zus(p.ts), zus(p.st)))
 			}
 			term = "MHist " + tempTerm(temp) + " " + gallina.List(it)
 		case "exp":
@@ -368,9 +394,9 @@ func main() {
 				dp.SetFlags(flags(p.norec))
 				dp.SetTimestamp(pcommon.Timestamp(p.ts))
 				dp.SetStartTimestamp(pcommon.Timestamp(p.st))
-				it = append(it, fmt.Sprintf("mkExp %s %s (mkB %s %s) (mkB %s %s) %s %s %s %s %s %s", gallina.Z(int64(p.scale)), gallina.ZU(p.zero),
-					gallina.Z(int64(p.poff)), zu(p.pos), gallina.Z(int64(p.noff)), zu(p.neg), gallina.ZU(p.count),
-					gallina.Bool(p.hasSum), gallina.FloatBits(p.sum), gallina.Bool(p.norec), gallina.ZU(p.ts), gallina.ZU(p.st)))
+				it = append(it, fmt.Sprintf("mkExp %s %s (mkB %s %s) (mkB %s %s) %s %s %s %s %s %s", zs(int64(p.scale)), zus(p.zero),
+					zs(int64(p.poff)), zu(p.pos), zs(int64(p.noff)), zu(p.neg), zus(p.count),
+					gallina.Bool(p.hasSum), fb(p.sum), gallina.Bool(p.norec), zus(p.ts), zus(p.st)))
 				if p.scale > 8 && (triggers(p.pos, p.poff, p.scale-8) || triggers(p.neg, p.noff, p.scale-8)) {
 					trig = true
 				}
@@ -410,7 +436,7 @@ func main() {
 				if r.h.ZeroThreshold != wantZT {
 					meta.GoViol = append(meta.GoViol, gallina.GoViolation{ID: strconv.Itoa(id), Shape: "zero-threshold", What: fmt.Sprint(r.h.ZeroThreshold)})
 				}
-				it = append(it, fmt.Sprintf("Hist %s %s %s", gallina.Z(r.st), gallina.Z(r.t), histTerm(r.h)))
+				it = append(it, fmt.Sprintf("Hist %s %s %s", zs(r.st), zs(r.t), histTerm(r.h)))
 				continue
 			}
 			series := "(SBucket (-7))" // unknown series: never equals the model
@@ -423,12 +449,12 @@ func main() {
 				series = "SCount"
 			case r.name == "m_bucket" && r.hasLe && r.nLabels == 2:
 				if r.le == "+Inf" {
-					series = "(SBucket " + gallina.FloatBits(math.Inf(1)) + ")"
+					series = "(SBucket " + fb(math.Inf(1)) + ")"
 				} else if b, e := strconv.ParseFloat(r.le, 64); e == nil {
-					series = "(SBucket " + gallina.FloatBits(b) + ")"
+					series = "(SBucket " + fb(b) + ")"
 				}
 			}
-			it = append(it, fmt.Sprintf("Float %s %s %s %s", series, gallina.Z(r.st), gallina.Z(r.t), gallina.FloatBits(r.v)))
+			it = append(it, fmt.Sprintf("Float %s %s %s %s", series, zs(r.st), zs(r.t), fb(r.v)))
 		}
 		obs := fmt.Sprintf("(mkRes %s %s %s %s)", gallina.List(it), gallina.Bool(err != nil), gallina.Bool(warnEmpty), gallina.Bool(warnZC))
 		class := "M-" + kind
@@ -450,7 +476,7 @@ func main() {
 			shape = defectShape
 			meta.Hit("M-defect-trigger")
 		}
-		cf.Add(fmt.Sprintf("CMetric %s (mkSet %s %s) (%s) %s", gallina.Z(int64(id)), gallina.Bool(allowDelta), gallina.Bool(nhcb), term, obs))
+		cf.Add(fmt.Sprintf("CMetric %s (mkSet %s %s) (%s) %s", zs(int64(id)), gallina.Bool(allowDelta), gallina.Bool(nhcb), term, obs))
 		obsS := strings.Join(it, "; ")
 		if len(obsS) > 600 {
 			obsS = obsS[:600] + "..."
@@ -478,7 +504,7 @@ func main() {
 	// ---- stream L: exhaustive small arrays ----
 	maxLen, offLo, offHi, sdHi := 4, int32(-2), int32(1), int32(2)
 	if f.Tier == "thorough" {
-		maxLen, offLo, offHi, sdHi = 6, -4, 3, 3
+		maxLen, offLo, offHi, sdHi = 5, -4, 3, 3
 	}
 	var rec func(cur []uint64)
 	rec = func(cur []uint64) {
@@ -500,7 +526,7 @@ func main() {
 	rec(nil)
 
 	// ---- stream L: seeded random ----
-	nL := f.Count(900, 40000)
+	nL := f.Count(900, 15000)
 	for i := 0; i < nL; i++ {
 		r := gen.Fork(f.Seed, i)
 		cs := genCounts(r, 40)
@@ -514,7 +540,7 @@ func main() {
 	}
 
 	// ---- stream M: seeded random metrics ----
-	nM := f.Count(450, 30000)
+	nM := f.Count(450, 8000)
 	for i := 0; i < nM; i++ {
 		r := gen.Fork(f.Seed, 1_000_000+i)
 		replay := fmt.Sprintf("seed=%d index=%d", f.Seed, 1_000_000+i)
